@@ -151,9 +151,18 @@ def gen_invalid(rng, v, cfg, serial, kinds_ops):
         return {"op": o, "comp": new_comp(rng.choice(H.LOADS + H.NONLOAD), fresh, serial), "group": g, "rail": ""}, "not_a_source"
     if o == "add_comp":
         c = rng.choice(["unknown_parent", "parent_is_load", "child_is_source", "second_mux", "list_for_non_mux",
-                        "dup_in_list", "dup_name", "name_is_rail", "dup_rail", "rail_is_name", "rail_eq_name"])
+                        "dup_in_list", "dup_name", "name_is_rail", "dup_rail", "rail_is_name", "rail_eq_name",
+                        "empty_list", "alias_list"])
         kind = rng.choice(H.LOADS + H.NONLOAD)
         par = v.addr(rng, rng.choice(nonload)) if nonload else some
+        if c == "empty_list":
+            return {"op": o, "parent": [], "comp": new_comp("pmux", fresh, serial), "group": g, "rail": ""}, c
+        own = [n for n in v.names if v.rails.get(n, "") != "" and v.ctype[n] != "LOAD"]
+        if c == "alias_list" and own and not v.muxes:
+            n = rng.choice(own)
+            pl = [n, v.rails[n]] + ([rng.choice(nonload)] if rng.random() < 0.3 else [])
+            if len(set(pl)) == len(pl):
+                return {"op": o, "parent": pl, "comp": new_comp("pmux", fresh, serial), "group": g, "rail": ""}, c
         if c == "unknown_parent":
             p = unknown if rng.random() < 0.7 else [par, unknown]
             return {"op": o, "parent": p, "comp": new_comp("pmux" if isinstance(p, list) else kind, fresh, serial),
@@ -181,7 +190,25 @@ def gen_invalid(rng, v, cfg, serial, kinds_ops):
         return {"op": o, "parent": par, "comp": new_comp(kind, some, serial), "group": g, "rail": ""}, "dup_name"
     if o == "change_comp":
         c = rng.choice(["unknown_target", "target_by_rail", "source_to_other", "mux_to_other", "other_to_source",
-                        "dup_name", "name_is_rail", "dup_rail", "rail_is_name", "rail_eq_name"])
+                        "dup_name", "name_is_rail", "dup_rail", "rail_is_name", "rail_eq_name",
+                        "to_load_with_children", "same_name_rail_in_use", "second_mux_by_change"])
+        withkids = [x for x in v.names if v.kids.get(x) and v.kind[x] in H.NONLOAD]
+        if c == "to_load_with_children" and withkids:
+            t = rng.choice(withkids)
+            return {"op": o, "name": t, "comp": new_comp(rng.choice(H.LOADS), t if rng.random() < 0.5 else fresh, serial),
+                    "group": g, "rail": ""}, c
+        if c == "same_name_rail_in_use":
+            cand = [x for x in v.names if v.ctype[x] != "LOAD"]
+            if cand:
+                t = rng.choice(cand)
+                coll = [r for k, r in v.rails.items() if k != t and r != ""] + list(v.names)
+                return {"op": o, "name": t, "comp": new_comp(v.kind[t], t, serial), "group": g, "rail": rng.choice(coll)}, c
+        if c == "second_mux_by_change" and v.muxes:
+            cand = [x for x in v.names if v.kind[x] in H.NONLOAD]
+            if cand:
+                t = rng.choice(cand)
+                return {"op": o, "name": t, "comp": new_comp("pmux", t if rng.random() < 0.5 else fresh, serial),
+                        "group": g, "rail": ""}, c
         if c == "unknown_target":
             return {"op": o, "name": unknown, "comp": new_comp(rng.choice(H.NONLOAD), fresh, serial), "group": g, "rail": ""}, c
         if c == "target_by_rail" and v.railvals:
@@ -221,7 +248,9 @@ def gen_invalid(rng, v, cfg, serial, kinds_ops):
             return {"op": o, "name": t, "comp": new_comp(kind, rng.choice(other), serial), "group": g, "rail": ""}, "dup_name"
         return {"op": o, "name": unknown, "comp": new_comp(kind, fresh, serial), "group": g, "rail": ""}, "unknown_target"
     if o == "del_comp":
-        c = rng.choice(["unknown_target", "last_source", "source_without_childs"])
+        c = rng.choice(["unknown_target", "last_source", "source_without_childs", "target_by_rail"])
+        if c == "target_by_rail" and v.railvals:
+            return {"op": o, "name": rng.choice(v.railvals), "del_childs": rng.random() < 0.5}, c
         if c == "last_source" and len(v.sources) == 1:
             return {"op": o, "name": v.sources[0], "del_childs": True}, c
         if c == "source_without_childs":
@@ -235,8 +264,10 @@ def gen_invalid(rng, v, cfg, serial, kinds_ops):
         rng.shuffle(ph)
         return {"op": o, "phases": [[p, 1.0] for p in ph]}, c
     if o == "set_comp_phases":
-        c = rng.choice(["unknown_target", "bad_type", "loss_component"])
+        c = rng.choice(["unknown_target", "bad_type", "loss_component", "loss_component", "target_by_rail"])
         sl = [x for x in v.names if v.ctype[x] == "SLOSS"]
+        if c == "target_by_rail" and v.railvals:
+            return {"op": o, "name": rng.choice(v.railvals), "conf": {"names": [rng.choice(H.PHASES)]}}, c
         if c == "loss_component" and sl:
             return {"op": o, "name": rng.choice(sl), "conf": {"names": [rng.choice(H.PHASES)]}}, c
         if c == "bad_type":
